@@ -106,8 +106,9 @@ Definition copy_leaf (o : options) (name : Z) (s s1 d d1 : rv) (p : bool) : valu
       else match apply_conv c (rty s) (rval s) with
            | CPanic => (rewrap p (rval d1), SPanic)
            | CErr e => (rewrap p (rval d1), SErr e)
-           | COk r =>
-               if negb (ty_eqb (cv_dst c) (rty d)) then (rewrap p (rval d1), SErr CType)
+           | COk CNil => (rewrap p (rval d1), SErr CType)
+           | COk (CDyn t r) =>
+               if negb (ty_eqb t (rty d)) then (rewrap p (rval d1), SErr CType)
                else (r, SOk)
            end
   end.
@@ -151,9 +152,9 @@ Lemma ctn_unfold : forall o name si di leaf kids s d,
 Proof. intros; reflexivity. Qed.
 
 (* ------------------------------------------------------------ hypotheses on converters *)
-(* Go's type system: Convert returns a value of the converter's Dst type *)
+(* Go's type system: a non-nil interface value has its dynamic type *)
 Definition conv_ok (c : conv) : Prop :=
-  forall v r, cv_fun c v = Some r -> has_type (cv_dst c) r = true.
+  forall v t r, cv_fun c v = Some (CDyn t r) -> has_type t r = true.
 Definition opts_ok (o : options) : Prop :=
   forall n c, find_conv o n = Some c -> conv_ok c.
 
@@ -255,17 +256,19 @@ Proof.
       destruct (ty_eqb sft (cv_src c)) eqn:E1; cbn [negb] in Hrun.
       2:{ inversion Hrun; subst. split; [discriminate|]. split; [apply rewrap_typed; exact Htx1|].
           intros Hk; discriminate Hk. }
-      destruct (cv_fun c y) as [r|] eqn:E2.
-      2:{ inversion Hrun; subst. split; [discriminate|]. split; [apply rewrap_typed; exact Htx1|].
+      destruct (cv_fun c y) as [[|t r]|] eqn:E2.
+      3:{ inversion Hrun; subst. split; [discriminate|]. split; [apply rewrap_typed; exact Htx1|].
           intros Hk; discriminate Hk. }
-      destruct (ty_eqb (cv_dst c) dft) eqn:E3; cbn [negb] in Hrun.
+      1:{ inversion Hrun; subst. split; [discriminate|]. split; [apply rewrap_typed; exact Htx1|].
+          intros Hk; discriminate Hk. }
+      destruct (ty_eqb t dft) eqn:E3; cbn [negb] in Hrun.
       2:{ inversion Hrun; subst. split; [discriminate|]. split; [apply rewrap_typed; exact Htx1|].
           intros Hk; discriminate Hk. }
       inversion Hrun; subst x' stt.
       apply ty_eqb_eq in E1. apply ty_eqb_eq in E3.
       split; [discriminate|]. split.
-      * rewrite <- E3. exact (Ho _ _ Ec _ _ E2).
-      * intros _. split; [symmetry; exact E1|split; [exact E3|first [exact E2|reflexivity]]].
+      * rewrite <- E3. exact (Ho _ _ Ec _ _ _ E2).
+      * intros _. subst t. split; [symmetry; exact E1|first [exact E2|reflexivity]].
     + destruct (ty_eqb (unptr sft) (unptr dft)) eqn:E1; cbn [negb] in Hrun.
       2:{ inversion Hrun; subst. split; [discriminate|]. split; [apply rewrap_typed; exact Htx1|].
           intros Hk; discriminate Hk. }
